@@ -46,7 +46,9 @@ PPL::Grid::Grid(const Grid& y, Complexity_Class)
     gen_sys = y.gen_sys;
   }
   else {
-    if (y.congruences_are_up_to_date()) {
+    // An empty grid holds the inconsistent congruence in `con_sys',
+    // even though the system is not marked as up-to-date.
+    if (y.congruences_are_up_to_date() || y.marked_empty()) {
       con_sys = y.con_sys;
     }
     else {
